@@ -460,7 +460,16 @@ def step (which : Prop3) (st : St) (opLine impl : String) : St × StepOut :=
     let waits := match op with | .wait w a => st.waits ++ [(w, a)] | _ => st.waits
     let calls := match op with | .call k a => st.calls ++ [(k, a)] | _ => st.calls
     let (w', own, others) := st.w.step op
-    let model := renderLine w' names groups own others
+    -- Known finding F15: an actor that exits while it is on a supervision cycle does not send its terminal
+    -- event to its supervisor (its own `terminate()` walks back to it and clears the link first). The
+    -- model's `cleanup` sends it; in exactly that configuration the rendering follows the code, so that the
+    -- witness can be replayed on every run without a DIFF; the ORACLE below still reports the finding.
+    let tgt0 := opActor st.waits st.calls op
+    let onCyc := op != .case && st.w.onCycle tgt0
+    let ownR := if onCyc then own.filter (fun (_, o) => match o with
+        | .ev (.emit _ e) => !e.isTerminal
+        | _ => true) else own
+    let model := renderLine w' names groups ownR others
     let hist := if op = .case then 0 else mixHash st.hist (hash opLine)
     -- implementation-derived events
     let tgt := opActor waits calls op
@@ -554,6 +563,18 @@ def step (which : Prop3) (st : St) (opLine impl : String) : St × StepOut :=
         ngroups := (tabs.filter (fun t => groups.contains t.1 && t.2.contains o.id)).length }
       let (m, f) := feedEv which mons o.id (.snap sn)
       (m, fails ++ f)) (mons, fails)
+    -- F15 gets its own clause name: a missing terminal event of an actor that was on a supervision cycle
+    -- (observed link graph before the op) when its task ended
+    let prevObs0 := match st.prev.splitOn " | " with
+      | _ :: f :: _ => parseStatuses f
+      | _ => []
+    let cycActors : List Nat := prevObs0.filterMap fun o =>
+      match o.sup with
+      | some p => if obsAbove prevObs0 (prevObs0.length + 1) p o.id then some o.id else none
+      | none => none
+    let endedHere : List Nat := evsR.filterMap fun (a, e) => match e with | .join _ => some a | _ => none
+    let fails := fails.map fun c =>
+      if c == "c04.missing-terminal" && endedHere.any (fun a => cycActors.contains a) then "c04.missing-terminal-in-cycle" else c
     let pfx := match which with | .c01 => "c01" | .c03 => "c03" | .c04 => "c04" | .residue => "residue" | .c02 => "c02"
     let fails := if bad then fails ++ [pfx ++ ".unparsable"] else fails
     -- the model must have routed every effect of this step (never drop one silently)
